@@ -157,6 +157,14 @@ def _base_table(seed=0):
             for content in CONTENTS_FILE:
                 for fo in (False, True):
                     yield dict(op="ow", ext=ext, nf=nf, na=na, content=content, entry="open", fo=fo)
+    # the same table once more under a name with capital letters (extensions are recognised case-insensitively,
+    # the path that is tested for existence must still be the one that is written)
+    for ext in list(EXT) + list(OPEN_EXTRA):
+        for nf in (1, multi):
+            for content in (_contents(ext, nf) if ext in EXT else CONTENTS_FILE)[:3]:
+                for entry in (ENTRIES if ext in EXT else ("open",)):
+                    for fo in (False, True):
+                        yield dict(op="ow", ext=ext, nf=nf, na=na, content=content, entry=entry, fo=fo, form="upper")
     for fmt in READ_FMTS:
         for entry in READ_ENTRIES:
             yield dict(op="read", fmt=fmt, entry=entry, src="mdtraj")
@@ -182,9 +190,9 @@ def _thorough_extra(seed):
                 for entry in ENTRIES:
                     for fo in (False, True):
                         yield dict(op="ow", ext=ext, nf=nf, content=content, entry=entry, fo=fo)
-    # path forms (relative to cwd, blanks + non-ascii, symlink and hard link to the pre-existing file)
+    # path forms (relative to cwd, blanks + non-ascii, capital letters, symlink and hard link to the pre-existing file)
     for ext in EXT:
-        for form in ("relative", "blank", "unicode", "symlink", "hardlink"):
+        for form in ("relative", "blank", "unicode", "upper", "symlink", "hardlink"):
             for nf in (1, 3):
                 for content in (["same", "junk"] if not EXT[ext].get("tree") else ["same", "junkdir"]):
                     if EXT[ext].get("restart") and nf > 1:
@@ -710,7 +718,7 @@ def _run_overwrite(case, ctx, d):
         ctx.skip("table", "layout needs more frames")
         return
     tnew = files.ident_traj(nf, na, cell="ortho", f0=0)
-    name = {"blank": "my traj (1) file." + ext, "unicode": "träj-βγ." + ext}.get(form, "traj." + ext)
+    name = {"blank": "my traj (1) file." + ext, "unicode": "träj-βγ." + ext, "upper": "Run_B-Traj." + ext}.get(form, "traj." + ext)
     path = os.path.join(d, name)
     real = path
     if form in ("symlink", "hardlink"):
